@@ -13,4 +13,5 @@ jsonschema.validate(json.load(open('/verif/MANIFEST.json')), json.load(open('/ro
 print("MANIFEST.json valid")
 PY
 fi
+./check --selftest | tail -1     # binding self-test: corrupted records must be rejected by TLC with the guarding clause
 echo "setup ok"
